@@ -1,0 +1,14 @@
+//go:build verif
+
+package oxia
+
+import "github.com/oxia-db/oxia/oxia/internal"
+
+// Re-exports of oxia/internal for the verification harness (a separate module cannot import internal packages).
+type (
+	VerifShard     = internal.Shard
+	VerifHashRange = internal.HashRange
+	VerifShardMap  = internal.VerifShardMap
+)
+
+func NewVerifShardMap() *VerifShardMap { return internal.NewVerifShardMap() }
